@@ -17,6 +17,7 @@ modes; `List Event` / `List AEvent` are arbitrary histories; nothing is bounded.
 -/
 import CaddyModel.C14.Lemmas
 import CaddyModel.C14.FileStoreLemmas
+import CaddyModel.C14.Resume
 import CaddyModel.C14.Witness
 import CaddyModel.Gen.CAWrites
 import CaddyModel.Gen.Autosave
@@ -647,6 +648,66 @@ example : (runLoads codeStyle
     (runLoads codeStyle
       [.load (exLoad [1] true true) none, .load (exLoad [2, 2] true true) (some ⟨2, .killTorn 1⟩), .restart,
        .load (exLoad [3] true true) none] ⟨none, ⟨none, none⟩⟩).fs = ⟨some [3], none⟩ := by decide
+
+/-! ## the resume side: `caddy run --resume` reads what the last load wrote
+
+The writer (caddy.go) and the reader (cmd/commandfuncs.go cmdRun) find the autosave file through
+the package variable `caddy.ConfigAutosavePath`, which `--envfile` processing re-computes
+(Resume.lean).  What the property needs across that glue: both use the same directory, for every
+process environment and every list of env files, and therefore a restart with `--resume` loads
+the latest config whose load had returned. -/
+
+theorem handleEnvFiles_spec : ∀ (files : List EnvFile) (s : CmdState), s.autosaveDir = appConfigDir s.env →
+    (s.handleEnvFiles files).env = files.foldl applyEnvFile s.env ∧
+    (s.handleEnvFiles files).autosaveDir = appConfigDir (files.foldl applyEnvFile s.env)
+  | [], _, h => ⟨rfl, h⟩
+  | f :: fs, s, _ => by
+    have ih := handleEnvFiles_spec fs (s.loadEnvFile f) rfl
+    simpa [CmdState.handleEnvFiles, CmdState.loadEnvFile] using ih
+
+/-- **the autosave path is a function of the environment AFTER env-file processing**: every load
+    of the process writes into `AppConfigDir()` of the process environment extended, file by
+    file, with the variables it did not have -/
+theorem writerDir_is_env_after_files (e : PEnv) (files : List EnvFile) :
+    writerDir e files = appConfigDir (files.foldl applyEnvFile e) :=
+  (handleEnvFiles_spec files (CmdState.init e) rfl).2
+
+/-- **writer path = reader path**, for every process environment and every list of env files -/
+theorem resume_reads_where_autosave_writes (e : PEnv) (files : List EnvFile) :
+    readerDir codeReadAt e files = writerDir e files := rfl
+
+/-- **resume_recovers_latest_push.**  A `caddy run` process (any environment, any env files, with
+    or without `--resume`, on any disk) starts, any clean history of loads is pushed, then config
+    `l` is pushed and its load returns (persistence on, accepted, no storage fault).  However the
+    process ends — SIGKILL included: nothing more is written — the autosave file in the writer's
+    directory is exactly `l`, and the next `caddy run --resume` with the same environment and env
+    files loads exactly `l` (not `--config`). -/
+theorem resume_recovers_latest_push (asLoad : Bytes → Load) (c : CmdLine) (d : CDisk) (evs : List AEvent)
+    (hc : ∀ e ∈ evs, e.clean) (hfirst : (firstLoad codeReadAt asLoad c d).persists = true)
+    (l : Load) (hp : l.persists = true) (hacc : l.accepted = true) :
+    (processRun codeReadAt asLoad c (evs ++ [.load l none]) d (writerDir c.env c.files)).path = some l.cfg ∧
+    firstLoad codeReadAt asLoad { c with resume := true }
+      (processRun codeReadAt asLoad c (evs ++ [.load l none]) d) = asLoad l.cfg := by
+  have hfile : (processRun codeReadAt asLoad c (evs ++ [.load l none]) d (writerDir c.env c.files)).path = some l.cfg := by
+    simp only [processRun, CDisk.set, if_true]
+    have := autosave_latest_after_return (.load (firstLoad codeReadAt asLoad c d) none :: evs)
+      ⟨none, d (writerDir c.env c.files)⟩
+      (fun e he => by
+        simp only [List.mem_cons] at he
+        rcases he with he | he
+        · subst he; exact ⟨rfl, hfirst⟩
+        · exact hc e he)
+      (fun c' hcur => by simp at hcur) l hp hacc
+    simpa using this
+  refine ⟨hfile, ?_⟩
+  simp only [firstLoad, if_true]
+  rw [resume_reads_where_autosave_writes, hfile]
+
+/-- an env file that defines XDG_CONFIG_HOME moves the autosave directory (so the theorems above
+    are not about a constant) -/
+example : writerDir ⟨.unset, .dir 1⟩ [[(.xdg, .dir 2)]] = .xdg 2 ∧ appConfigDir ⟨.unset, .dir 1⟩ = .home 1 ∧
+    writerDir ⟨.empty, .dir 1⟩ [[(.xdg, .dir 2)]] = .home 1 ∧
+    writerDir ⟨.unset, .unset⟩ [[(.home, .dir 3)], [(.xdg, .dir 2), (.home, .dir 0)]] = .xdg 2 := by decide
 
 /-! ### regenerated ties: the ORDER the theorems are about is the order the source has now
 
